@@ -173,16 +173,8 @@ def rel_dist(a: Optional[torch.Tensor], b: Optional[torch.Tensor]) -> float:
     return float((a64[m] - b64[m]).abs().max()) / max(float(b64[m].abs().max()), 1e-30)
 
 
-def run(rep: Report, tier: str) -> None:
-    rng = random.Random(common.seed() * 73 + 24)
-    torch.manual_seed(common.seed())
-    torch.set_num_threads(2)
-    quick = tier == "quick"
-    res = common.run_tlc("ScaledOps_MC", "ScaledOps_MC.cfg", coverage=True, timeout=600, tag="somc")
-    common.tlc_must_pass(res, "ScaledOps_MC")
-    rep.add_tlc(res)
-    modes = ["aot_eager"] + ([] if quick else ["inductor"])
-    cfgs = pick_cfgs(rng, 70 if quick else 250)
+def check_cfgs(rep: Report, cfgs: List[Dict[str, Any]], modes: List[str], rng: random.Random, inductor_share: float = 0.35) -> int:
+    """Every configuration: eager call log + every mode's call log (ScaledOps_Trace) and eager-vs-mode closeness."""
     classes = fnlog.Classes()
     events: List[List[Any]] = []
     cfg_of: Dict[int, Dict[str, Any]] = {}
@@ -198,7 +190,7 @@ def run(rep: Report, tier: str) -> None:
         except Exception as ex:
             continue   # eager failures are C01's business
         for mode in modes + ["leaf_tracer", "fx_forward"]:
-            if mode == "inductor" and rng.random() > 0.35:
+            if mode == "inductor" and inductor_share < 1.0 and rng.random() > inductor_share:
                 continue
             back = mode != "fx_forward"
             try:
@@ -223,55 +215,83 @@ def run(rep: Report, tier: str) -> None:
                         rep.violation(f"{cfg['op']} ({dt}): gradient #{gi} under {mode} differs from eager beyond {tol:g}; cfg={cfg}", {"cfg": cfg, "mode": mode, "what": f"grad{gi}"}, key=f"gradient:{mode}:{dt}")
                         break
     validate(rep, events, cfg_of, "C20")
+    rep.extra["events"] = rep.extra.get("events", 0) + len(events)
+    return skipped_fx
+
+
+def check_composition(rep: Report, case_seed: int, modes: List[str]) -> None:
+    make, dt0, label = composition(random.Random(case_seed))
+    rep.case(("composition", case_seed))
+
+    def run_mode(mode, dt):
+        f, tens = make(dt)
+        ts = [t.detach().clone().requires_grad_() for t in tens]
+        torch._dynamo.reset()
+        fn = f if mode == "eager" else torch.compile(f, backend=mode)
+        torch.manual_seed(1)
+        y = fn(*ts)
+        gs = torch.autograd.grad(y, ts, allow_unused=True)
+        return y.detach(), gs
+
+    try:
+        ye, ge = run_mode("eager", dt0)
+        y32, g32 = run_mode("eager", torch.float32)
+        y64, g64 = run_mode("eager", torch.float64)
+    except Exception as ex:
+        return
+    # "to float rounding": the admissible distance is conditioned on the composition -- amplification = how far eager
+    # float32 is from eager float64 on the same data, in units of float32 epsilon; a compiled run in dtype D may be
+    # 64 x amplification x eps(D) away from eager (never less than the flat tolerance used for single ops)
+    amp = max([rel_dist(y32, y64)] + [rel_dist(a, b) for a, b in zip(g32, g64)]) / 2.0 ** -23
+    f32_inside = dt0 == torch.float32 or "rms" in label   # U.rms_norm computes its statistic in float32 by design (core.functional.rms), whatever the input dtype
+    base = 1e-6 if (f32_inside and dt0 == torch.float64) else (1e-11 if dt0 == torch.float64 else 5e-5)
+    tol = max(base, 64.0 * amp * (2.0 ** -23 if f32_inside else 2.0 ** -52))
+    for mode in modes:
+        try:
+            yc, gc = run_mode(mode, dt0)
+        except Exception as ex:
+            rep.violation(f"composition {label} under {mode} raised {type(ex).__name__}: {str(ex)[:160]}", {"composition": label, "mode": mode, "case_seed": case_seed}, key=f"composition_raised:{mode}")
+            continue
+        bad = not close(yc, ye, tol) or any((a is None) != (b is None) or (a is not None and not close(a, b, tol)) for a, b in zip(gc, ge))
+        if bad:
+            worst = max([rel_dist(yc, ye)] + [rel_dist(a, b) for a, b in zip(gc, ge)])
+            rep.violation(f"composition {label}: {mode} differs from eager by {worst:.3g} (relative to the largest element), beyond {tol:.3g} (float32-vs-float64 amplification of this composition: {amp:.3g})",
+                          {"composition": label, "mode": mode, "case_seed": case_seed}, key=f"composition:{mode}:{dt0}")
+
+
+def run(rep: Report, tier: str) -> None:
+    rng = random.Random(common.seed() * 73 + 24)
+    torch.manual_seed(common.seed())
+    torch.set_num_threads(2)
+    quick = tier == "quick"
+    res = common.run_tlc("ScaledOps_MC", "ScaledOps_MC.cfg", coverage=True, timeout=600, tag="somc")
+    common.tlc_must_pass(res, "ScaledOps_MC")
+    rep.add_tlc(res)
+    modes = ["aot_eager"] + ([] if quick else ["inductor"])
+    cfgs = pick_cfgs(rng, 70 if quick else 250)
+    skipped_fx = check_cfgs(rep, cfgs, modes, rng)
     # compositions and modules
     for i in range(10 if quick else 60):
-        make, dt0, label = composition(rng)
-        rep.case(("composition", i))
-
-        def run_mode(mode, dt):
-            f, tens = make(dt)
-            ts = [t.detach().clone().requires_grad_() for t in tens]
-            torch._dynamo.reset()
-            fn = f if mode == "eager" else torch.compile(f, backend=mode)
-            torch.manual_seed(1)
-            y = fn(*ts)
-            gs = torch.autograd.grad(y, ts, allow_unused=True)
-            return y.detach(), gs
-
-        try:
-            ye, ge = run_mode("eager", dt0)
-            y32, g32 = run_mode("eager", torch.float32)
-            y64, g64 = run_mode("eager", torch.float64)
-        except Exception as ex:
-            continue
-        # "to float rounding": the admissible distance is conditioned on the composition -- amplification = how far eager
-        # float32 is from eager float64 on the same data, in units of float32 epsilon; a compiled run in dtype D may be
-        # 64 x amplification x eps(D) away from eager (never less than the flat tolerance used for single ops)
-        amp = max([rel_dist(y32, y64)] + [rel_dist(a, b) for a, b in zip(g32, g64)]) / 2.0 ** -23
-        f32_inside = dt0 == torch.float32 or "rms" in label   # U.rms_norm computes its statistic in float32 by design (core.functional.rms), whatever the input dtype
-        base = 1e-6 if (f32_inside and dt0 == torch.float64) else (1e-11 if dt0 == torch.float64 else 5e-5)
-        tol = max(base, 64.0 * amp * (2.0 ** -23 if f32_inside else 2.0 ** -52))
-        for mode in modes:
-            try:
-                yc, gc = run_mode(mode, dt0)
-            except Exception as ex:
-                rep.violation(f"composition {label} under {mode} raised {type(ex).__name__}: {str(ex)[:160]}", {"composition": label, "mode": mode}, key=f"composition_raised:{mode}")
-                continue
-            bad = not close(yc, ye, tol) or any((a is None) != (b is None) or (a is not None and not close(a, b, tol)) for a, b in zip(gc, ge))
-            if bad:
-                worst = max([rel_dist(yc, ye)] + [rel_dist(a, b) for a, b in zip(gc, ge)])
-                rep.violation(f"composition {label}: {mode} differs from eager by {worst:.3g} (relative to the largest element), beyond {tol:.3g} (float32-vs-float64 amplification of this composition: {amp:.3g})",
-                              {"composition": label, "mode": mode}, key=f"composition:{mode}:{dt0}")
+        check_composition(rep, rng.randrange(1 << 30), modes)
     rep.extra["fx_symbolic_trace_not_applicable"] = skipped_fx
-    rep.extra["events"] = len(events)
     rep.rule = "a slice of the C01/C02 configurations (every op, dtypes f64/f32/bf16) x modes {eager, aot_eager, (thorough) inductor, leaf tracer, fx forward} + compositions of 2-6 ops/modules; non-trivial = all"
     rep.sample({"cfg": cfgs[0], "modes": modes + ["leaf_tracer", "fx_forward"]})
     rep.assumptions += ["dropout with p>0 in training mode is excluded (eager and compiled RNG streams differ in torch itself)", "ops that are not symbolically traceable by plain torch.fx are skipped for the fx clause and counted"]
 
 
 def replay(rep: Report, path: str) -> None:
+    """Re-runs exactly the recorded configuration (all modes) or composition (by its case seed) on the current code."""
     d = json.load(open(path))
+    c = d["case"]
     rep.case("replay")
-    rep.case(json.dumps(d["case"], default=str)[:200])
-    rep.sample(d["case"])
-    run(rep, "quick")
+    rep.case(json.dumps(c, default=str)[:200])
+    rep.sample(c)
+    torch.set_num_threads(2)
+    modes = ["aot_eager"] + (["inductor"] if c.get("mode") == "inductor" else [])
+    if c.get("case_seed") is not None:
+        check_composition(rep, int(c["case_seed"]), modes)
+    elif c.get("cfg") is not None:
+        cfg = {k: v for k, v in c["cfg"].items() if k != "expect"}
+        check_cfgs(rep, [cfg], modes, random.Random(0), inductor_share=1.0)
+    else:
+        run(rep, "quick")
